@@ -451,6 +451,14 @@ func sameTerm(a, b *Term) bool {
 	if a.isConst() && b.isConst() && a.Val != nil && b.Val != nil {
 		return a.Val.Cmp(b.Val) == 0 && sameSort(a.Sort, b.Sort)
 	}
+	if a.Op == b.Op && a.Op != "const" && a.Op != "var" && len(a.Args) == len(b.Args) && a.Name == b.Name && len(a.Args) > 0 && len(a.Bound) == 0 {
+		for i := range a.Args {
+			if !sameTerm(a.Args[i], b.Args[i]) {
+				return false
+			}
+		}
+		return sameSort(a.Sort, b.Sort)
+	}
 	return false
 }
 
@@ -694,6 +702,7 @@ const (
 	ModeInt Mode = iota
 	ModeBV
 	ModeReal // Int encoding for integers, floats as reals with the standard rounding-error model
+	ModePruned // Int encoding, irrelevant quantified hypotheses dropped
 )
 
 func (m Mode) String() string {
@@ -702,6 +711,9 @@ func (m Mode) String() string {
 	}
 	if m == ModeReal {
 		return "real"
+	}
+	if m == ModePruned {
+		return "pruned"
 	}
 	return "int"
 }
@@ -1252,13 +1264,37 @@ func (p *smtPrinter) prInt(t *Term, rec func(*Term) string) string {
 				}
 			}
 		}
+		// x & ^(2^k - 1)  ==  x - (x mod 2^k)
+		for i := 0; i < 2; i++ {
+			m := t.Args[i]
+			if m.isConst() {
+				u := toUnsigned(m.Val, s)
+				all := new(big.Int).Sub(new(big.Int).Lsh(big.NewInt(1), uint(s.W)), big.NewInt(1))
+				inv := new(big.Int).Xor(u, all) // ^m
+				k := new(big.Int).Add(inv, big.NewInt(1))
+				if k.Sign() > 0 && new(big.Int).And(k, inv).Sign() == 0 && k.BitLen()-1 < s.W {
+					x := rec(t.Args[1-i])
+					return "(- " + x + " (mod " + x + " " + k.String() + "))"
+				}
+			}
+		}
+		return p.bridge(t, rec)
+	case "bandnot":
+		if m := t.Args[1]; m.isConst() {
+			u := toUnsigned(m.Val, s)
+			k := new(big.Int).Add(u, big.NewInt(1))
+			if k.Sign() > 0 && new(big.Int).And(k, u).Sign() == 0 && k.BitLen()-1 < s.W {
+				x := rec(t.Args[0])
+				return "(- " + x + " (mod " + x + " " + k.String() + "))"
+			}
+		}
 		return p.bridge(t, rec)
 	case "bor":
 		if sum, ok := p.disjointOr(t, rec); ok {
 			return sum
 		}
 		return p.bridge(t, rec)
-	case "bxor", "bandnot", "bnot":
+	case "bxor", "bnot":
 		return p.bridge(t, rec)
 	}
 	panic("prInt: unknown op " + t.Op)
